@@ -91,13 +91,18 @@ def shard_direct(sh, part):
         else:
             names = ['f%d' % i for i in range(n)]
             rng.shuffle(names)
-        grid = rng.choice(['dyadic', 'float', 'few-values'])
+        grid = rng.choice(['dyadic', 'float', 'few-values', 'near-ties', 'large-magnitude'])
+        tie_base = rng.uniform(0.2, 0.8)
 
         def val(neg_ok=True):
             if grid == 'dyadic':
                 v = rng.randint(-8 if neg_ok else 0, 8) / 8.0
             elif grid == 'few-values':
                 v = rng.choice([0.0, 0.5, 1.0])
+            elif grid == 'near-ties':          # candidates separated by ~1e-9: single precision cannot order them
+                v = tie_base + rng.randint(-50, 50) * 1e-9
+            elif grid == 'large-magnitude':    # un-normalised scores above 2^24
+                v = float(2 ** 25 + rng.randint(-2000, 2000))
             else:
                 v = rng.uniform(-1 if neg_ok else 0, 1)
             return v
@@ -155,10 +160,14 @@ def shard_pipeline(sh, part):
         return out
     tr.rank_features_3MR = hooked
     rng, nprng = sh.rng('pipe', part), sh.nprng('pipe', part)
-    for run in range(2 if sh.tier == 'quick' else 3):
+    for run in range(2 if sh.tier == 'quick' else 4):
         k = rng.randint(4, 6)
         n = 600
         header = ['f%d' % i for i in range(k)] + ['label']
+        if run % 2 == 1:
+            # names that contain the letters of the relation marker, and names with edge blanks (header "a, b")
+            header[0], header[1] = 'BRAND_RELATED', ' f1'
+            header[2] = 'f2 '
         lab = nprng.integers(0, 2, n)
         cols = []
         for i in range(k):
